@@ -313,7 +313,38 @@ func RunCase(t *testing.T, spec CaseSpec) *CaseResult {
 		}
 		res.Nontrivial = delivered > 0
 	case "C03":
-		if len(sc.Attempts) > 1 {
+		if len(sc.Attempts) > 1 && sc.Attempts[1].RewindTo {
+			// the same Streamer re-pointed to a delivered end label
+			for _, rw := range r.Rewound {
+				if rw.Attempt >= len(r.Results) {
+					continue
+				}
+				a := r.Results[rw.Attempt]
+				if a.Master == nil || len(a.Master.Dumps) == 0 {
+					continue
+				}
+				d := a.Master.Dumps[0]
+				if got := (Pos{d.File, int64(d.Offset)}); got != rw.Label {
+					add([]Violation{{"C03", "resume-suffix", fmt.Sprintf("SetBinlogPosition(%v) on the same Streamer, but the next Stream call asked the master for %v", rw.Label, got), rw.Attempt}})
+					continue
+				}
+				if !d.Served {
+					continue
+				}
+				vs := checkPrefix("C03", sc.Hist, rw.Label, a.Calls, rw.Attempt)
+				for i := range vs {
+					vs[i].Rule = "resume-suffix"
+					vs[i].Detail = fmt.Sprintf("same Streamer resumed at delivered label %v: %s", rw.Label, vs[i].Detail)
+				}
+				add(vs)
+				exp, _ := sc.Hist.Model(rw.Label)
+				cleanPlan := a.Plan.Stop == stopNone || (a.Plan.Stop == stopEOF && a.Plan.Stream.AtPacket >= 1<<30)
+				if len(vs) == 0 && cleanPlan && !a.Hang && a.Returned && a.StreamErr == nil && len(a.Calls) != len(exp) {
+					add([]Violation{{"C03", "resume-suffix", fmt.Sprintf("same Streamer resumed at delivered label %v: %d deliveries, the binlog holds %d commit points behind it", rw.Label, len(a.Calls), len(exp)), rw.Attempt}})
+				}
+			}
+			res.Stats.probe("same-streamer-rewind-cases")
+		} else if len(sc.Attempts) > 1 {
 			// replica crash + restart from the last label the handler made durable
 			for _, v := range checkC04(r) {
 				v.Property, v.Rule = "C03", "crash-restart-exactly-once:"+v.Rule
